@@ -196,8 +196,10 @@ def pyInt : PyVal → Except ErrKind Int
 inductive BoolOut | val (b : Bool) | dflt
   deriving DecidableEq, Repr
 
-/-- strutils.py:143-177 -/
-def boolFromString (subject : PyVal) (strict : Bool) : Except ErrKind BoolOut :=
+/-- strutils.py:143-177, with the public module tables `TRUE_STRINGS` / `FALSE_STRINGS` that are in
+    force at the time of the call as parameters (a caller may rebind them) -/
+def boolFromStringT (trueStrings falseStrings : List (List Char)) (subject : PyVal) (strict : Bool) :
+    Except ErrKind BoolOut :=
   match subject with
   | .bool b => .ok (.val b)                                   -- isinstance(subject, bool)
   | _ =>
@@ -205,24 +207,34 @@ def boolFromString (subject : PyVal) (strict : Bool) : Except ErrKind BoolOut :=
     | .error e => .error e
     | .ok text =>
       let lowered := pyLower (pyStrip text)
-      if Gen.trueStrings.contains lowered then .ok (.val true)
-      else if Gen.falseStrings.contains lowered then .ok (.val false)
+      if trueStrings.contains lowered then .ok (.val true)
+      else if falseStrings.contains lowered then .ok (.val false)
       else if strict then .error .valueError
       else .ok .dflt
 
-/-- strutils.py:180-190: `str(value).lower() in TRUE_STRINGS + FALSE_STRINGS` -/
-def isValidBoolstr (value : PyVal) : Except ErrKind Bool :=
+/-- `bool_from_string` with the tables as shipped (generated from the working tree) -/
+def boolFromString (subject : PyVal) (strict : Bool) : Except ErrKind BoolOut :=
+  boolFromStringT Gen.trueStrings Gen.falseStrings subject strict
+
+/-- strutils.py:180-190: `str(value).lower() in TRUE_STRINGS + FALSE_STRINGS`, tables in force -/
+def isValidBoolstrT (trueStrings falseStrings : List (List Char)) (value : PyVal) : Except ErrKind Bool :=
   match pyStr value with
   | .error e => .error e
-  | .ok text => .ok ((Gen.trueStrings ++ Gen.falseStrings).contains (pyLower text))
+  | .ok text => .ok ((trueStrings ++ falseStrings).contains (pyLower text))
+
+def isValidBoolstr (value : PyVal) : Except ErrKind Bool :=
+  isValidBoolstrT Gen.trueStrings Gen.falseStrings value
 
 /-- strutils.py:129-140: `int(bool_from_string(subject))` (strict=False, default=False) -/
-def intFromBoolAsString (subject : PyVal) : Except ErrKind Nat :=
-  match boolFromString subject false with
+def intFromBoolAsStringT (trueStrings falseStrings : List (List Char)) (subject : PyVal) : Except ErrKind Nat :=
+  match boolFromStringT trueStrings falseStrings subject false with
   | .error e => .error e
   | .ok (.val true) => .ok 1
   | .ok (.val false) => .ok 0
   | .ok .dflt => .ok 0
+
+def intFromBoolAsString (subject : PyVal) : Except ErrKind Nat :=
+  intFromBoolAsStringT Gen.trueStrings Gen.falseStrings subject
 
 /-! ### is_int_like, validate_integer, check_string_length -/
 
